@@ -1877,6 +1877,14 @@ def hostile_specs():
         s.structs[name] = W.StructDef(name, [{"name": "a", "ty": W.V(4, "f32")}])
         _storage(s, "buf", W.ST(name), 0)
         _compute_entry(s)
+    # module constants named like an item the generator adds itself
+    for name, extra in (("SOURCE", None), ("ENTRY_CS_MAIN", None), ("PUSH_CONSTANT_STAGES", "pc")):
+        s = base("const-named-like-generated:" + name)
+        s.consts.append({"name": name, "decl": "const %s = 7u;" % name, "ty": "u32", "bits": 7,
+                         "skipped": False})
+        if extra:
+            s.globals.append(Global("pc", "push", ty=W.V(4, "f32")))
+        _compute_entry(s)
     s = base("serde-array-over-32")
     s.structs["Big"] = W.StructDef("Big", [{"name": "a", "ty": W.A(W.V(4, "f32"), 33)}])
     _storage(s, "buf", W.ST("Big"), 0)
